@@ -902,6 +902,7 @@ func checkC23(w *World, r *Report, tier string) propMeta {
 	r.rule(r1, "one stats entry per scan job: processDataBlock registers its recordBlockStats defer unconditionally at entry and records nowhere else", 2)
 	r.rule(r2, "filter pass accounts for each block exactly once per iteration (survivor, skipped entry, or unread entry) and every early exit is a cancellation or records all remaining blocks", 12)
 	r.rule(r3, "skipped/unread entries leave RowsProcessed/BytesProcessed zero; scan counters advance once per scanned row; Stats counts each entry as skipped xor processed and sums rows/bytes over all entries", 6)
+	c02R3(w, r) // RowsMatched advances by len(batch) exactly once per delivered batch
 	if fn := fnOrUndecided(w, r, r1, "BloomSearchEngine.processDataBlock"); fn != nil {
 		deferred := false
 		var cb *ssa.Function
@@ -1543,21 +1544,186 @@ func c20R7(w *World, r *Report) {
 	})
 }
 
+// closers: summaries "this function closes its argument i exactly once on
+// every path" / "closes every element of its slice argument i", so that a
+// wrapper around Close (logging the error, say) counts as the close it performs.
+type closers struct {
+	w   *World
+	one map[string]int // fn|i -> 0 unknown/in progress, 1 yes, 2 no
+	all map[string]int
+}
+
+func newClosers(w *World) *closers {
+	return &closers{w: w, one: map[string]int{}, all: map[string]int{}}
+}
+
+// isCloseOf: the call closes value v exactly once (directly or through a wrapper).
+func (cs *closers) isCloseOf(site ssa.Instruction, c *ssa.CallCommon, v ssa.Value) bool {
+	if _, isGo := site.(*ssa.Go); isGo {
+		return false
+	}
+	if c.IsInvoke() {
+		return c.Method.Name() == "Close" && c.Value == v
+	}
+	g := cs.w.staticCallee(c)
+	if g == nil || g.Blocks == nil {
+		return false
+	}
+	for j, a := range c.Args {
+		if a == v && cs.closesParam(g, j) {
+			return true
+		}
+	}
+	return false
+}
+
+func (cs *closers) closesParam(g *ssa.Function, j int) bool {
+	key := fmt.Sprintf("%p|%d", g, j)
+	switch cs.one[key] {
+	case 1:
+		return true
+	case 2:
+		return false
+	}
+	cs.one[key] = 2 // recursion guard
+	if j >= len(g.Params) {
+		return false
+	}
+	p := g.Params[j]
+	fl := newFlow(cs.w, g, &Classifier{Call: func(site ssa.Instruction, c *ssa.CallCommon) *Event {
+		if cs.isCloseOf(site, c, p) {
+			return (&Event{}).count("close")
+		}
+		return nil
+	}})
+	ok := true
+	n := 0
+	for _, ret := range fl.Returns() {
+		n++
+		if fl.Before(ret).Cnt("close") != c1 {
+			ok = false
+		}
+	}
+	if ok && n > 0 {
+		cs.one[key] = 1
+		return true
+	}
+	return false
+}
+
+// closesAllArg: the call closes every element of one of its slice arguments;
+// returns that argument.
+func (cs *closers) closesAllArg(site ssa.Instruction, c *ssa.CallCommon) ssa.Value {
+	if _, isGo := site.(*ssa.Go); isGo || c.IsInvoke() {
+		return nil
+	}
+	g := cs.w.staticCallee(c)
+	if g == nil || g.Blocks == nil {
+		return nil
+	}
+	for j, a := range c.Args {
+		if _, isSlice := a.Type().Underlying().(*types.Slice); isSlice && cs.closesAll(g, j) {
+			return a
+		}
+	}
+	return nil
+}
+
+func (cs *closers) closesAll(g *ssa.Function, j int) bool {
+	key := fmt.Sprintf("%p|%d", g, j)
+	switch cs.all[key] {
+	case 1:
+		return true
+	case 2:
+		return false
+	}
+	cs.all[key] = 2
+	if j >= len(g.Params) {
+		return false
+	}
+	p := g.Params[j]
+	var closeSite ssa.Instruction
+	fl := newFlow(cs.w, g, &Classifier{Call: func(site ssa.Instruction, c *ssa.CallCommon) *Event {
+		// the closed value is an element of the parameter: a load of p[i]
+		var cand []ssa.Value
+		if c.IsInvoke() {
+			cand = []ssa.Value{c.Value}
+		} else {
+			cand = c.Args
+		}
+		for _, v := range cand {
+			u, ok := v.(*ssa.UnOp)
+			if !ok {
+				continue
+			}
+			ia, ok := u.X.(*ssa.IndexAddr)
+			if !ok || ia.X != ssa.Value(p) {
+				continue
+			}
+			if cs.isCloseOf(site, c, v) {
+				closeSite = site
+				return ev("closed")
+			}
+		}
+		return nil
+	}})
+	if closeSite == nil {
+		return false
+	}
+	backs := loopBackEdgeFacts(fl, closeSite)
+	if len(backs) == 0 {
+		return false
+	}
+	for _, f := range backs {
+		if !f.Must("closed") {
+			return false
+		}
+	}
+	// the loop ranges over the whole parameter
+	hdr := innermostHeader(closeSite.Block())
+	whole := false
+	for _, in := range hdr.Instrs {
+		if b, ok := in.(*ssa.BinOp); ok {
+			if _, _, up := countsUp(b); up {
+				if init, bound, _ := countsUp(b); init != nil {
+					if z, isC := constInt(init); isC && z == 0 && lenOfValue(bound, p) {
+						whole = true
+					}
+				}
+			}
+		}
+		if ph, ok := in.(*ssa.Phi); ok {
+			if init, bound, up := countsUp(ph); up {
+				if z, isC := constInt(init); isC && z == 0 && lenOfValue(bound, p) {
+					whole = true
+				}
+			}
+		}
+	}
+	if whole {
+		cs.all[key] = 1
+	}
+	return whole
+}
+
 // c21R6: inside the handle pool every handle has exactly one fate.
 func c21R6(w *World, r *Report) {
 	const rule = "C21.R6"
-	r.rule(rule, "pool internals: put either stores the handle as idle or closes it — exactly one of the two on every path; discard closes it exactly once, synchronously; acquire removes the handle it lends from the idle set; closeHandles closes every element; detached idle sets are closed exactly once", 7)
-	isParamClose := func(fn *ssa.Function, c *ssa.CallCommon, param string) bool {
-		if !c.IsInvoke() || c.Method.Name() != "Close" {
-			return false
+	r.rule(rule, "pool internals: put either stores the handle as idle or closes it — exactly one of the two on every path; discard closes it exactly once, synchronously; acquire removes the handle it lends from the idle set; detached idle sets are closed element by element, exactly once (closes may go through wrappers that themselves close their argument exactly once on every path)", 6)
+	cs := newClosers(w)
+	handleParam := func(fn *ssa.Function) *ssa.Parameter {
+		for _, p := range fn.Params {
+			if w.typeName(p.Type()) == "io.ReadSeekCloser" {
+				return p
+			}
 		}
-		p, ok := c.Value.(*ssa.Parameter)
-		return ok && p.Name() == param && p.Parent() == fn
+		return nil
 	}
 	if fn := fnOrUndecided(w, r, rule, "fileHandlePool.put"); fn != nil {
+		hp := handleParam(fn)
 		cl := &Classifier{
 			Call: func(site ssa.Instruction, c *ssa.CallCommon) *Event {
-				if isParamClose(fn, c, "handle") {
+				if hp != nil && cs.isCloseOf(site, c, hp) {
 					return ev("closed").count("fate")
 				}
 				return nil
@@ -1571,7 +1737,7 @@ func c21R6(w *World, r *Report) {
 					if call, ok := st.Val.(*ssa.Call); ok {
 						if _, elems, ok := appendedElems(call); ok {
 							for _, e := range elems {
-								if p, isP := e.(*ssa.Parameter); isP && p.Name() == "handle" {
+								if e == ssa.Value(hp) {
 									return ev("stored").count("fate")
 								}
 							}
@@ -1585,47 +1751,21 @@ func c21R6(w *World, r *Report) {
 		for i, ret := range fl.Returns() {
 			f := fl.Before(ret)
 			c := f.Cnt("fate")
-			r.check(c == c1, rule, fmt.Sprintf("put:return#%d", i), w.instrPos(ret), "stored as idle or closed, exactly one", "put gives the handle "+cntString(c)+" fates (stored idle / closed) on paths to this return: a handle both closed and kept idle is lent out after close and closed again at teardown; a handle with neither is leaked")
+			r.check(hp != nil && c == c1, rule, fmt.Sprintf("put:return#%d", i), w.instrPos(ret), "stored as idle or closed, exactly one", "put gives the handle "+cntString(c)+" fates (stored idle / closed) on paths to this return: a handle both closed and kept idle is lent out after close and closed again at teardown; a handle with neither is leaked")
 		}
 	}
 	if fn := fnOrUndecided(w, r, rule, "fileHandlePool.discard"); fn != nil {
+		hp := handleParam(fn)
 		fl := newFlow(w, fn, &Classifier{Call: func(site ssa.Instruction, c *ssa.CallCommon) *Event {
-			if _, isGo := site.(*ssa.Go); isGo {
-				return nil
-			}
-			if isParamClose(fn, c, "handle") {
+			if hp != nil && cs.isCloseOf(site, c, hp) {
 				return ev("closed").count("fate")
 			}
 			return nil
 		}})
 		for i, ret := range fl.Returns() {
 			c := fl.Before(ret).Cnt("fate")
-			r.check(c == c1, rule, fmt.Sprintf("discard:return#%d", i), w.instrPos(ret), "closed exactly once before discard returns", "discard returns with the handle closed "+cntString(c)+" times by the calling goroutine: the failed handle is not closed (or not yet closed) when the reader moves on, so Next can return false with a handle still open")
+			r.check(hp != nil && c == c1, rule, fmt.Sprintf("discard:return#%d", i), w.instrPos(ret), "closed exactly once before discard returns", "discard returns with the handle closed "+cntString(c)+" times by the calling goroutine: the failed handle is not closed (or not yet closed) when the reader moves on, so Next can return false with a handle still open")
 		}
-	}
-	if fn := fnOrUndecided(w, r, rule, "closeHandles"); fn != nil {
-		var closeSite ssa.Instruction
-		fl := newFlow(w, fn, &Classifier{Call: func(site ssa.Instruction, c *ssa.CallCommon) *Event {
-			if _, isGo := site.(*ssa.Go); isGo {
-				return nil
-			}
-			if c.IsInvoke() && c.Method.Name() == "Close" && strings.HasPrefix(w.path(c.Value), "p:handles[") {
-				closeSite = site
-				return ev("closed")
-			}
-			return nil
-		}})
-		okc := closeSite != nil
-		if okc {
-			backs := loopBackEdgeFacts(fl, closeSite)
-			okc = len(backs) > 0
-			for _, f := range backs {
-				if !f.Must("closed") {
-					okc = false
-				}
-			}
-		}
-		r.check(okc, rule, "closeHandles:every-element", w.pos(fn.Pos()), "each element closed on every iteration", "closeHandles can skip an element: an idle handle stays open after the query ends")
 	}
 	if fn := fnOrUndecided(w, r, rule, "fileHandlePool.acquire"); fn != nil {
 		// the lent handle is idle[last] and idle is cut to idle[:last] with the same last = len(idle)-1
@@ -1671,12 +1811,11 @@ func c21R6(w *World, r *Report) {
 		if fn == nil {
 			continue
 		}
+		var closeSites []ssa.Instruction
 		cl := &Classifier{
 			Call: func(site ssa.Instruction, c *ssa.CallCommon) *Event {
-				if _, isGo := site.(*ssa.Go); isGo {
-					return nil
-				}
-				if w.isCallTo(c, "closeHandles") {
+				if arg := cs.closesAllArg(site, c); arg != nil && strings.Contains(w.path(arg), ".idle") {
+					closeSites = append(closeSites, site)
 					return ev("closedIdle").count("closeIdle")
 				}
 				if b, ok := c.Value.(*ssa.Builtin); ok && b.Name() == "delete" {
@@ -1695,26 +1834,35 @@ func c21R6(w *World, r *Report) {
 		}
 		fl := newFlow(w, fn, cl)
 		if name == "fileHandlePool.release" {
+			n := 0
 			for i, ret := range fl.Returns() {
 				f := fl.Before(ret)
 				if !f.May("detached") {
 					continue
 				}
+				n++
 				c := f.Cnt("closeIdle")
-				r.check(c == c1, rule, fmt.Sprintf("release:return#%d", i), w.instrPos(ret), "the detached idle set is closed once", "release removes a file's entry and closes its idle handles "+cntString(c)+" times: handles leak or are closed twice")
+				r.check(c == c1, rule, fmt.Sprintf("release:return#%d", i), w.instrPos(ret), "the detached idle set is closed once, element by element", "release removes a file's entry and closes its idle handles "+cntString(c)+" times: handles leak or are closed twice")
+			}
+			if n == 0 {
+				r.undecided(rule, "release:detach", w.pos(fn.Pos()), "no path of release removes the file's entry")
 			}
 		} else {
-			sites := w.callSitesIn(fn, "closeHandles")
-			okc := len(sites) == 1
+			uniq := map[ssa.Instruction]bool{}
+			for _, s := range closeSites {
+				uniq[s] = true
+			}
+			okc := len(uniq) == 1
 			if okc {
-				backs := loopBackEdgeFacts(fl, sites[0])
-				okc = len(backs) > 0 && strings.Contains(w.path(callOf(sites[0]).Args[0]), ".idle")
+				site := closeSites[0]
+				backs := loopBackEdgeFacts(fl, site)
+				okc = len(backs) > 0
 				for _, f := range backs {
 					if !f.Must("closedIdle") {
 						okc = false
 					}
 				}
-				if !fl.Before(sites[0]).May("detached") {
+				if f := fl.Before(site); f == nil || !f.May("detached") {
 					okc = false
 				}
 			}
